@@ -36,8 +36,8 @@ var storageErrExceptions = []errException{
 	{"kv.mergeRoots", "Load", []an.ErrVerdict{an.ErrSwallowed}, "merge-on-open skips a version whose objects answer a well-formed NoSuchKey (vacuumed), only when listing", []string{"nosuchkey", "param:skipUnreadable"}},
 	{"kv.mergeRoots", "Clone", []an.ErrVerdict{an.ErrSwallowed}, "merge-on-open skips a version it cannot fold because an object answers a well-formed NoSuchKey (vacuumed), only when listing (never for an explicit version set). Until repair c76a515 this entry demanded only the skipUnreadable guard: a transport error then left a committed version out of an open that reported success", []string{"nosuchkey", "param:skipUnreadable"}},
 	{"kv.loadRootFromAny", "loadRoot", []an.ErrVerdict{an.ErrSwallowed}, "a well-formed NoSuchKey in one prefix means: try the next prefix", []string{"nosuchkey"}},
-	{"(*kv.DB).getHistoricRootsAndNodes", "Load", []an.ErrVerdict{an.ErrSwallowed}, "vacuum candidate discovery skips what it cannot read: fewer deletions, the safe direction", nil},
-	{"(*kv.DB).getHistoricRootsAndNodes", "DiffLinks", []an.ErrVerdict{an.ErrSwallowed, an.ErrDropped}, "vacuum candidate discovery skips what it cannot diff: fewer deletions, the safe direction. Only the pairwise diffs between a retired version and its successors: the walk over the handle's own (retained) tree takes nodes OFF the deletion list, so an error there means MORE deletions and is not covered (until round 5 this entry matched every DiffLinks call of the function)", []string{"recv-not-live"}},
+	{"(*kv.DB).getHistoricRootsAndNodes", "Load", []an.ErrVerdict{an.ErrSwallowed}, "vacuum's candidate discovery passes over a version whose objects an interrupted earlier vacuum has already deleted (well-formed NoSuchKey). Until repair a2b321f any error was passed over here, on the argument 'fewer deletions is the safe direction' — but the version object was deleted all the same and its nodes leaked", []string{"nosuchkey"}},
+	{"(*kv.DB).getHistoricRootsAndNodes", "DiffLinks", []an.ErrVerdict{an.ErrSwallowed, an.ErrDropped}, "vacuum candidate discovery skips what it cannot diff: fewer deletions, the safe direction. Only the pairwise diffs between a retired version and its successors: the walk over the handle's own (retained) tree takes nodes OFF the deletion list, so an error there means MORE deletions and is not covered (until round 5 this entry matched every DiffLinks call of the function); since repair a2b321f only a well-formed NoSuchKey", []string{"recv-not-live", "nosuchkey"}},
 	{"kv.DeleteHistoricVersions", "loadRoot", []an.ErrVerdict{an.ErrSwallowed, an.ErrDropped}, "optional clean-up of an empty current version; on error it is simply kept", nil},
 	{"(*sqlite.VacuumCursor).Filter", "Vacuum", []an.ErrVerdict{an.ErrStored}, "reported to the user as the vacuum_error column by design", nil},
 }
